@@ -3,6 +3,7 @@ package main
 // Discharging obligations with a portfolio of SMT solvers.
 
 import (
+	"sort"
 	"bytes"
 	"context"
 	"fmt"
@@ -14,10 +15,13 @@ import (
 	"time"
 )
 
+var tsMu sync.Mutex
+
 type solverSpec struct {
 	name string
 	argv func(file string, timeoutS int, seed int) []string
 	pre  string // extra prelude lines (set-logic etc.)
+	noNthPat bool // script variant without quantifier patterns that mention seq.nth
 }
 
 var solvers = []solverSpec{
@@ -30,6 +34,9 @@ var solvers = []solverSpec{
 	{name: "z3-4.8.12", argv: func(f string, t, seed int) []string {
 		return []string{"z3", fmt.Sprintf("-T:%d", t), fmt.Sprintf("smt.random_seed=%d", seed), f}
 	}},
+	{name: "z3-5.1.0-mbqi", argv: func(f string, t, seed int) []string {
+		return []string{"z3-new", fmt.Sprintf("-T:%d", t), fmt.Sprintf("smt.random_seed=%d", seed), f}
+	}, noNthPat: true},
 }
 
 type solveResult struct {
@@ -84,7 +91,7 @@ func (e *Engine) Discharge(o *Obligation, dir string, idx int, timeoutS int, see
 	total := 0.0
 	solver := ""
 	for k, part := range o.Parts {
-		sub := &Obligation{Name: fmt.Sprintf("%s/%d", o.Name, k), Kind: o.Kind, Func: o.Func, Goal: part, NFacts: o.NFacts, Ctx: o.Ctx, Src: o.Src}
+		sub := &Obligation{Name: fmt.Sprintf("%s/%d", o.Name, k), Kind: o.Kind, Func: o.Func, Goal: part, NFacts: o.NFacts, Gap: o.Gap, PC: o.PC, Ctx: o.Ctx, Src: o.Src}
 		if part.IsTrue() {
 			continue
 		}
@@ -111,7 +118,10 @@ func (e *Engine) discharge1(o *Obligation, dir string, idx int, timeoutS int, se
 		timeoutS = 2
 	}
 	c := o.Ctx
-	hyps := relevantFacts(c, o.NFacts, o.Goal)
+	tsMu.Lock() // obligations are discharged concurrently; these two steps create terms
+	hyps := relevantFacts(c, o.NFacts, o.Goal, o.Gap, o.PC)
+	hyps = append(hyps, preInstantiate(e.ts, hyps, o.Goal)...)
+	tsMu.Unlock()
 	var gv []*Term
 	for _, in := range c.inputs {
 		gv = append(gv, in)
@@ -137,13 +147,22 @@ func (e *Engine) discharge1(o *Obligation, dir string, idx int, timeoutS int, se
 		walk(o.Goal)
 	}
 	body := e.ts.Script("", e.tc.Datatypes(), hyps, o.Goal, gv)
+	var bodyNP *Script
 	file := filepath.Join(dir, fmt.Sprintf("obl-%04d.smt2", idx))
 	write := func(sp solverSpec) string {
 		f := file
-		if sp.pre != "" {
+		if sp.pre != "" || sp.noNthPat {
 			f = strings.TrimSuffix(file, ".smt2") + "-" + sp.name + ".smt2"
 		}
-		txt := "; obligation: " + o.Name + "\n; clause: " + strings.ReplaceAll(o.Src, "\n", " ") + "\n(set-option :produce-models true)\n" + sp.pre + preludeVal + body.Text
+		btxt := body.Text
+		if sp.noNthPat {
+			if bodyNP == nil {
+				b := e.ts.ScriptOpt("", e.tc.Datatypes(), hyps, o.Goal, gv, true)
+				bodyNP = &b
+			}
+			btxt = bodyNP.Text
+		}
+		txt := "; obligation: " + o.Name + "\n; clause: " + strings.ReplaceAll(o.Src, "\n", " ") + "\n(set-option :produce-models true)\n" + sp.pre + preludeVal + btxt
 		os.WriteFile(f, []byte(txt), 0o644)
 		return f
 	}
@@ -159,6 +178,45 @@ func (e *Engine) discharge1(o *Obligation, dir string, idx int, timeoutS int, se
 		all = append(all, r)
 		if r.status == "unsat" || r.status == "sat" {
 			win = &r
+		}
+	}
+	// stage 1b: the same solver on the "shallow" problem: definitional (triggered) facts left out, i.e. every
+	// specification / library function uninterpreted. Fewer hypotheses: an unsat answer is as good as any other.
+	if win == nil && !coverOnly {
+		tsMu.Lock()
+		sh := relevantFactsShallow(c, o.NFacts, o.Goal, o.Gap, o.PC)
+		sh = append(sh, preInstantiate(e.ts, hyps, o.Goal)...)
+		tsMu.Unlock()
+		b := e.ts.Script("", e.tc.Datatypes(), sh, o.Goal, nil)
+		f := strings.TrimSuffix(file, ".smt2") + "-shallow.smt2"
+		os.WriteFile(f, []byte("; obligation: "+o.Name+" (shallow)\n"+preludeVal+b.Text), 0o644)
+		r := runSolver(context.Background(), solvers[0], f, 3, seed)
+		if r.status == "unsat" {
+			r.solver += " (shallow)"
+			all = append(all, r)
+			win = &r
+		}
+	}
+	// stage 1c: relevance-filtered hypothesis sets (in the manner of the MePo filter): facts most of whose sub-terms
+	// already occur in the goal (or in facts selected before). Large irrelevant fact sets make the solvers give up
+	// on goals that need a couple of dozen facts only. Any subset of the hypotheses is sound.
+	if win == nil && !coverOnly && len(hyps) > 120 {
+		for k, max := range []int{60, 150, 300} {
+			thr := 0.3
+			sub := mepoFilter(hyps, o.Goal, thr, max)
+			if len(sub) == 0 || len(sub) >= len(hyps) {
+				continue
+			}
+			b := e.ts.Script("", e.tc.Datatypes(), sub, o.Goal, nil)
+			f := strings.TrimSuffix(file, ".smt2") + fmt.Sprintf("-focus%d.smt2", k)
+			os.WriteFile(f, []byte("; obligation: "+o.Name+" (focused hypotheses)\n"+preludeVal+b.Text), 0o644)
+			r := runSolver(context.Background(), solvers[0], f, 4, seed)
+			if r.status == "unsat" {
+				r.solver += " (focused)"
+				all = append(all, r)
+				win = &r
+				break
+			}
 		}
 	}
 	// stage 2: the whole portfolio with the full limit
@@ -225,8 +283,39 @@ func firstLines(s string, n int) string {
 }
 
 // relevantFacts keeps untriggered facts and those triggered facts whose trigger term occurs in the goal or in a kept fact.
-func relevantFacts(c *FnCtx, n int, goal *Term) []*Term {
+func relevantFacts(c *FnCtx, n int, goal *Term, gap [2]int, pc *Term) []*Term {
 	facts, trigs := c.facts[:n], c.triggers[:n]
+	// literals whose truth contradicts the obligation's path condition
+	contra := map[int]bool{}
+	if pc != nil {
+		for _, l := range conjuncts(pc) {
+			contra[c.eng.ts.Not(l).id] = true
+		}
+	}
+	excl := make([]bool, n)
+	if len(contra) > 0 {
+		memo := map[int]bool{}
+		for i := 0; i < n && i < len(c.factPC); i++ {
+			g := c.factPC[i]
+			if g == nil || g.IsTrue() {
+				continue
+			}
+			v, ok := memo[g.id]
+			if !ok {
+				for _, l := range conjuncts(g) {
+					if contra[l.id] {
+						v = true
+						break
+					}
+				}
+				memo[g.id] = v
+			}
+			excl[i] = v
+		}
+	}
+	skip := func(i int) bool {
+		return excl[i] || (i >= gap[0] && i < gap[1] && i < len(c.factGuarded) && c.factGuarded[i])
+	}
 	reach := map[int]bool{}
 	nthOf := map[int]bool{} // sequences some element of which is mentioned by the goal (or by a fact pulled in for the goal)
 	var mark func(t *Term, nth bool)
@@ -259,7 +348,7 @@ func relevantFacts(c *FnCtx, n int, goal *Term) []*Term {
 	mark(goal, false)
 	keep := make([]bool, len(facts))
 	for i, f := range facts {
-		if trigs[i] == nil {
+		if trigs[i] == nil && !skip(i) {
 			keep[i] = true
 			mark(f, false)
 		}
@@ -267,7 +356,7 @@ func relevantFacts(c *FnCtx, n int, goal *Term) []*Term {
 	for changed := true; changed; {
 		changed = false
 		for i, f := range facts {
-			if keep[i] {
+			if keep[i] || skip(i) {
 				continue
 			}
 			ok := reach[trigs[i].id]
@@ -284,10 +373,326 @@ func relevantFacts(c *FnCtx, n int, goal *Term) []*Term {
 			}
 		}
 	}
+	// cone of influence: of the facts selected so far only those connected to the goal through shared symbols
+	// (constants: inputs, package variables, heaps, fresh names) can matter; dropping the others is sound
+	symMemo := map[int][]int{}
+	var symsOf func(t *Term, acc map[int]bool, seen map[int]bool)
+	symsOf = func(t *Term, acc map[int]bool, seen map[int]bool) {
+		if seen[t.id] {
+			return
+		}
+		seen[t.id] = true
+		if t.kind == kVar {
+			acc[t.id] = true
+			return
+		}
+		for _, a := range t.args {
+			symsOf(a, acc, seen)
+		}
+	}
+	factSyms := func(f *Term) []int {
+		if v, ok := symMemo[f.id]; ok {
+			return v
+		}
+		acc := map[int]bool{}
+		symsOf(f, acc, map[int]bool{})
+		var l []int
+		for id := range acc {
+			l = append(l, id)
+		}
+		symMemo[f.id] = l
+		return l
+	}
+	cone := map[int]bool{}
+	for _, id := range factSyms(goal) {
+		cone[id] = true
+	}
+	sel := make([]bool, len(facts))
+	seenFact := map[int]bool{}
+	for changed := true; changed; {
+		changed = false
+		for i, f := range facts {
+			if !keep[i] || sel[i] {
+				continue
+			}
+			ss := factSyms(f)
+			hit := len(ss) == 0
+			for _, id := range ss {
+				if cone[id] {
+					hit = true
+					break
+				}
+			}
+			if hit {
+				sel[i] = true
+				changed = true
+				for _, id := range ss {
+					cone[id] = true
+				}
+			}
+		}
+	}
 	var out []*Term
 	for i, f := range facts {
-		if keep[i] {
+		if keep[i] && sel[i] && !seenFact[f.id] {
+			seenFact[f.id] = true
 			out = append(out, f)
+		}
+	}
+	return out
+}
+
+
+// preInstantiate: instances of universally quantified hypotheses at the sequence positions the goal talks about.
+// z3 rewrites seq.nth internally, so its E-matching never fires on a trigger (seq.nth S ?i); for every hypothesis
+// containing, at a positive position,  forall i. body  whose trigger is (seq.nth S i), and every ground term
+// (seq.nth S t) of the goal (or of an instance already made), the instance body[t/i] is added - a consequence of
+// the hypothesis, hence sound.
+func preInstantiate(ts *TermStore, hyps []*Term, goal *Term) []*Term {
+	type key struct{ seq, idx int }
+	ground := map[key]*Term{} // (sequence, index) -> index term
+	var order []key
+	var collect func(t *Term, seen map[int]bool)
+	collect = func(t *Term, seen map[int]bool) {
+		if seen[t.id] {
+			return
+		}
+		seen[t.id] = true
+		if t.kind == kQuant {
+			return
+		}
+		if t.kind == kApp && t.op == "seq.nth" && len(ts.FreeBoundVars(t)) == 0 {
+			k := key{t.args[0].id, t.args[1].id}
+			if _, ok := ground[k]; !ok {
+				ground[k] = t.args[1]
+				order = append(order, k)
+			}
+		}
+		for _, a := range t.args {
+			collect(a, seen)
+		}
+	}
+	collect(goal, map[int]bool{})
+	var out []*Term
+	done := map[[2]int]bool{}
+	// positive-position universal quantifiers of a hypothesis
+	var quants func(t *Term, pos bool, acc *[]*Term)
+	quants = func(t *Term, pos bool, acc *[]*Term) {
+		switch {
+		case t.kind == kQuant:
+			if t.op == "forall" && pos {
+				*acc = append(*acc, t)
+			}
+		case t.kind == kApp && t.op == "not" && len(t.args) == 1:
+			quants(t.args[0], !pos, acc)
+		case t.kind == kApp && t.op == "=>" && len(t.args) == 2:
+			quants(t.args[0], !pos, acc)
+			quants(t.args[1], pos, acc)
+		case t.kind == kApp && (t.op == "and" || t.op == "or"):
+			for _, a := range t.args {
+				quants(a, pos, acc)
+			}
+		}
+	}
+	for round := 0; round < 2; round++ {
+		n0 := len(order)
+		for _, h := range append(append([]*Term{}, hyps...), out...) {
+			var qs []*Term
+			quants(h, true, &qs)
+			for _, q := range qs {
+				bv, body := q.args[0], q.args[1]
+				if bv.sort != SInt {
+					continue
+				}
+				for _, p := range ts.patterns(bv, body, false) {
+					if !(p.kind == kApp && p.op == "seq.nth" && p.args[1] == bv) || len(ts.FreeBoundVars(p.args[0])) > 0 {
+						continue
+					}
+					for _, k := range order {
+						if k.seq != p.args[0].id || done[[2]int{q.id, k.idx}] {
+							continue
+						}
+						done[[2]int{q.id, k.idx}] = true
+						inst := ts.Subst(body, bv, ground[k])
+						nh := replacePositive(ts, h, q, inst, true)
+						out = append(out, nh)
+						collect(inst, map[int]bool{})
+						if len(out) >= 60 {
+							return out
+						}
+					}
+				}
+			}
+		}
+		if len(order) == n0 {
+			break
+		}
+	}
+	return out
+}
+
+// replacePositive replaces the occurrences of quantifier q that sit at positive positions of t (reached through
+// and / or / not / => only) by inst; any other occurrence is left alone.
+func replacePositive(ts *TermStore, t, q, inst *Term, pos bool) *Term {
+	switch {
+	case t == q:
+		if pos {
+			return inst
+		}
+		return t
+	case t.kind == kApp && t.op == "not" && len(t.args) == 1:
+		in := replacePositive(ts, t.args[0], q, inst, !pos)
+		if in == t.args[0] {
+			return t
+		}
+		return ts.Not(in)
+	case t.kind == kApp && t.op == "=>" && len(t.args) == 2:
+		a, b := replacePositive(ts, t.args[0], q, inst, !pos), replacePositive(ts, t.args[1], q, inst, pos)
+		if a == t.args[0] && b == t.args[1] {
+			return t
+		}
+		return ts.mk(kApp, "=>", SBool, a, b)
+	case t.kind == kApp && (t.op == "and" || t.op == "or"):
+		na := make([]*Term, len(t.args))
+		same := true
+		for i, a := range t.args {
+			na[i] = replacePositive(ts, a, q, inst, pos)
+			same = same && na[i] == a
+		}
+		if same {
+			return t
+		}
+		return ts.mk(kApp, t.op, SBool, na...)
+	}
+	return t
+}
+
+// relevantFactsShallow: only the facts that are not definitional lemmas about an application (untriggered facts).
+func relevantFactsShallow(c *FnCtx, n int, goal *Term, gap [2]int, pc *Term) []*Term {
+	full := relevantFacts(c, n, goal, gap, pc)
+	inFull := map[int]bool{}
+	for _, f := range full {
+		inFull[f.id] = true
+	}
+	// terms of the goal itself
+	reach := map[int]bool{}
+	var mark func(t *Term)
+	mark = func(t *Term) {
+		if reach[t.id] {
+			return
+		}
+		reach[t.id] = true
+		for _, a := range t.args {
+			mark(a)
+		}
+	}
+	mark(goal)
+	var out []*Term
+	for i := 0; i < n; i++ {
+		f := c.facts[i]
+		if !inFull[f.id] {
+			continue
+		}
+		if c.triggers[i] == nil || (reach[c.triggers[i].id] && !c.trigNth[i] && f.kind != kQuant) {
+			out = append(out, f)
+		}
+	}
+	return out
+}
+
+// conjuncts: the literals of a conjunction (nested "and" flattened).
+func conjuncts(t *Term) []*Term {
+	var out []*Term
+	var walk func(t *Term)
+	walk = func(t *Term) {
+		if t.kind == kApp && t.op == "and" {
+			for _, a := range t.args {
+				walk(a)
+			}
+			return
+		}
+		out = append(out, t)
+	}
+	walk(t)
+	return out
+}
+
+// mepoFilter selects the hypotheses that are relevant to the goal by shared sub-terms: a fact is taken when at least
+// the fraction thr of its (non-literal) sub-terms is already relevant; its sub-terms then become relevant too.
+func mepoFilter(hyps []*Term, goal *Term, thr float64, max int) []*Term {
+	subs := func(t *Term) []int {
+		seen := map[int]bool{}
+		var out []int
+		var walk func(t *Term)
+		walk = func(t *Term) {
+			if seen[t.id] {
+				return
+			}
+			seen[t.id] = true
+			if t.kind != kLit && t.sort != SBool {
+				out = append(out, t.id)
+			}
+			for _, a := range t.args {
+				walk(a)
+			}
+		}
+		walk(t)
+		return out
+	}
+	rel := map[int]bool{}
+	for _, id := range subs(goal) {
+		rel[id] = true
+	}
+	fs := make([][]int, len(hyps))
+	for i, h := range hyps {
+		fs[i] = subs(h)
+	}
+	sel := make([]bool, len(hyps))
+	n := 0
+	for n < max {
+		// the best-scoring 30 facts of this round
+		type cand struct {
+			i     int
+			score float64
+		}
+		var cs []cand
+		for i := range hyps {
+			if sel[i] {
+				continue
+			}
+			if len(fs[i]) == 0 {
+				cs = append(cs, cand{i, 1})
+				continue
+			}
+			hit := 0
+			for _, id := range fs[i] {
+				if rel[id] {
+					hit++
+				}
+			}
+			if sc := float64(hit) / float64(len(fs[i])); sc >= thr {
+				cs = append(cs, cand{i, sc})
+			}
+		}
+		if len(cs) == 0 {
+			break
+		}
+		sort.SliceStable(cs, func(a, b int) bool { return cs[a].score > cs[b].score })
+		if len(cs) > 30 {
+			cs = cs[:30]
+		}
+		for _, c := range cs {
+			sel[c.i] = true
+			n++
+			for _, id := range fs[c.i] {
+				rel[id] = true
+			}
+		}
+	}
+	var out []*Term
+	for i, h := range hyps {
+		if sel[i] {
+			out = append(out, h)
 		}
 	}
 	return out
